@@ -81,7 +81,7 @@ def make_engine():
         r = z3.Function("localize_utc", E.Ref, E.Ref)(v.z)
         st.assume(*utc_instant_facts(engine, r), z3.Implies(dt.aware(v.z), dt.inst(r) == dt.inst(v.z)))
         return [(st, E.VRef(r))]
-    eng.contracts["TZP.localize_utc"] = localize_utc
+    eng.contracts["TZP.localize_utc"] = comp.exact_arity(localize_utc, 2, "tzp.localize_utc(dt)")
     return eng, classes
 
 
